@@ -248,6 +248,9 @@ class Emitter(object):
         if k == "dyn":
             o = self.nav(e[1])
             return getattr(o, e[2])()
+        if k == "dyni":
+            o = self.nav(e[1])[self.expr(e[2])]
+            return getattr(o, e[3])()
         raise Exception("unknown expr %r" % (e,))
 
     def item(self, it):
@@ -370,6 +373,8 @@ def src_expr(e, me="self"):
         return "%s%s[%s]%s" % (me, _src_path(e[1]), src_expr(e[2], me), ("." + e[3]) if (len(e) > 3 and e[3]) else "")
     if k == "dyn":
         return "%s%s.%s()" % (me, _src_path(e[1]), e[2])
+    if k == "dyni":
+        return "%s%s[%s].%s()" % (me, _src_path(e[1]), src_expr(e[2], me), e[3])
     return repr(e)
 
 
